@@ -147,3 +147,23 @@ def witness_F22():
     except Exception:
         return False
     return False
+
+
+# ---- F20 (C07): CNLS test, admittance representation
+def cnls_admittance_not_exact(entry):
+    i = entry.get("input")
+    return isinstance(i, dict) and entry.get("what") == "own-model-not-reproduced" and i.get("test") == "cnls" and i.get("admittance") is True
+
+
+def witness_F20():
+    import random
+    import numpy as np
+    import sys, os
+    sys.path.insert(0, os.path.dirname(os.path.abspath(__file__)))
+    from props.c07 import gen_spectrum
+    from pyimpspec import DataSet, perform_kramers_kronig_test
+    rnd = random.Random(1)
+    f, Z, x, taus, c = gen_spectrum(rnd, True, False, True, 10, -0.2, 4.0, 8)
+    r = perform_kramers_kronig_test(DataSet(f, Z), test="cnls", num_RC=10, add_capacitance=False, add_inductance=True, admittance=True, log_F_ext=-0.2,
+                                    num_F_ext_evaluations=0, num_procs=1, max_nfev=2000)
+    return bool(np.max(np.abs(r.residuals)) > 1e-3)
